@@ -5,6 +5,7 @@ package mdns
 import (
 	"errors"
 	"net"
+	"sync"
 
 	"github.com/enbility/go-avahi"
 	"github.com/enbility/ship-go/zzvrt"
@@ -49,6 +50,7 @@ type vAvahi struct {
 	browsers      []*vBrowser
 	groups        []*vGroup
 	addCh, remCh  chan avahi.Service
+	mu            sync.Mutex // go-avahi's server mutex: held while a signal is dispatched and while a browser is freed
 	callsAfterEnd int  // Setup / ServiceBrowserNew / EntryGroupNew after the application's Shutdown returned
 	ended         bool // application's Shutdown returned
 }
@@ -85,8 +87,26 @@ func (s *vAvahi) ServiceBrowserNew(addChan, removeChan chan avahi.Service, iface
 	return b, nil
 }
 func (s *vAvahi) ServiceBrowserFree(r avahi.ServiceBrowserInterface) {
+	s.mu.Lock()
 	if b, ok := r.(*vBrowser); ok {
 		b.freed = true
+	}
+	s.mu.Unlock()
+}
+
+// dispatch: go-avahi's signal goroutine hands a browse result to the provider's channel with a blocking send while it
+// holds the server mutex (server.go handleSignals); freeing the browser takes the same mutex, so nothing is in flight or
+// dispatched once ServiceBrowserFree has returned
+func (s *vAvahi) dispatch(add bool, v avahi.Service) {
+	s.mu.Lock()
+	defer s.mu.Unlock()
+	if s.liveBrowsers() == 0 {
+		return
+	}
+	if add {
+		s.addCh <- v
+	} else {
+		s.remCh <- v
 	}
 }
 func (s *vAvahi) EntryGroupNew() (avahi.EntryGroupInterface, error) {
@@ -245,6 +265,13 @@ func H_C19_Shutdown() {
 	_ = p.Start(true, e.cb)
 	_ = p.Announce("svc", 4711, []string{"v=1"})
 	done := 0
+	// the daemon may deliver a browse result (new or removed service) at any moment, also while Shutdown is in progress
+	switch zzvrt.Choice("event.during.shutdown", 3) {
+	case 1:
+		go srv.dispatch(true, avahi.Service{Name: "peer", Interface: 1})
+	case 2:
+		go srv.dispatch(false, avahi.Service{Name: "peer", Interface: 1})
+	}
 	go func() { p.Shutdown(); done++ }()
 	if zzvrt.Bool("second.shutdown") {
 		go func() { p.Shutdown(); done++ }()
